@@ -416,3 +416,37 @@ Section Product.
   Definition proj (i : nat) (ls : list (nat * L)) : list L :=
     map snd (filter (fun il => Nat.eqb (fst il) i) ls).
 End Product.
+
+(* ------------------------------------------------------------------ which deadline applies (api/engine.go) *)
+(* bindRoute: handler.TimeoutHandler(ng.checkedTimeout(fr.timeout)); checkedTimeout (:136-142): the route's own
+   timeout (api.WithTimeout) when positive, else the server-wide Config.Timeout; in milliseconds here.  0 = no
+   deadline at all (TimeoutHandler(0) returns next: the BZero bypass). *)
+Definition effective_timeout (global route : Z) : Z := if 0 <? route then route else global.
+(* rpc/server.go setupInterceptors :117-120: UnaryTimeoutInterceptor(Timeout ms) is added iff Timeout > 0 *)
+Definition rpc_has_timeout (timeout : Z) : bool := 0 <? timeout.
+
+(* ------------------------------------------------------------------ pass-through writers around the guards *)
+(* loghandler.go loggedResponseWriter (:93-101) and detailLoggedResponseWriter (:129-136, installed when
+   Config.Verbose), response.WithCodeResponseWriter: every Write / WriteHeader is handed to the wrapped writer
+   unchanged and completely; the wrapper only remembers the status code / a copy of the body for its log line. *)
+Record lwriter := mklw { lw_inner : rwriter; lw_code : Z; lw_buf : list nat }.
+Definition lw_write_header (c : Z) (w : lwriter) : lwriter := mklw (rw_write_header c (lw_inner w)) c (lw_buf w).
+Definition lw_write (bs : list nat) (w : lwriter) : lwriter := mklw (rw_write bs (lw_inner w)) (lw_code w) (lw_buf w ++ bs).
+Definition rw_apply (w : rwriter) (e : revent) : rwriter :=
+  match e with RWriteHeader c _ => rw_write_header c w | RWrite bs => rw_write bs w end.
+Definition lw_apply (w : lwriter) (e : revent) : lwriter :=
+  match e with RWriteHeader c _ => lw_write_header c w | RWrite bs => lw_write bs w end.
+
+(* ------------------------------------------------------------------ the assembled unary chain of a started server *)
+(* rpc/internal/server.go Start: Tracing, Crash, Stat, Prometheus, Breaker, then what setupInterceptors added
+   (Shedding, Timeout, Auth).  The breaker interceptor runs the rest of the chain inside googleBreaker.doReq, whose
+   deferred function STILL tests the recovered value (lib/breaker/googlebreaker.go:71-76
+   `if e := recover(); e != nil { b.markFailure(); panic(e) }`): a panic(nil) that reaches it is swallowed and
+   doReq returns nil, i.e. the interceptor returns (nil, nil).  With the timeout interceptor in between the
+   breaker only ever sees that interceptor's formatted string. *)
+Definition breaker_sees (v : pvalue) : bool := match v with PVNil => false | _ => true end.
+Definition rpc_server_direct (h : hres) : rres :=
+  match h with
+  | HPanics v => if breaker_sees v then rpc_direct true h else RResult None codeOK
+  | _ => rpc_direct true h
+  end.
